@@ -199,9 +199,11 @@ def deciders(run, m, F, E):
                 args2 = args
             its = conv.run_iteration(I, fn, st, args2, 1, ebd)
             its = [it for it in its if not (it.kind == 'ret' and st_cursor_at_end(it))]
+            if any(it.kind == 'untracked' for it in its) or not its:
+                run.ob('R02.1', label, None, 'the loop does not move a recognised cursor over the input: class not judged' if its else 'no path explored',
+                       disc=cls['name'], loc=fn_loc(fn))
+                continue
             bad = judge_decider(I, its, cls, 1, kind, m)
-            if not its:
-                bad = ['no path explored']
             run.ob('R02.1', label, not bad, bad[0] if bad else '%s as the table says (%d path(s))' % (cls['expect'], len(its)),
                    disc=cls['name'], loc=fn_loc(fn))
     return n
@@ -240,6 +242,9 @@ def policy(run, m, F, E, pairs):
                     label = mname + ('/substitute_out_of_range=%d' % fl if has_flag else '')
                     bad = []
                     sig = []
+                    if any(it.kind == 'untracked' for it in its):
+                        run.ob('R02.2', subject, None, 'the loop does not move a recognised cursor over the input: class not judged', disc=cls['name'] + ' / ' + label, loc=fn_loc(C))
+                        continue
                     for it in its:
                         s2 = it.st
                         if it.kind == 'abort':
